@@ -923,7 +923,20 @@ func corpus() []storeSpec {
 	col := base
 	col.Metrics = []mSpec{{Name: q("c"), Prog: q("p"), Kind: "counter", Type: "int", Keys: []string{q("k")}, Source: q(""),
 		Ls: []lsSpec{{Vals: []string{q("a.b")}, I: 1, T: 1700000000e9}, {Vals: []string{q("a_b")}, I: 2, T: 1700000000e9}, {Vals: []string{q("a-b")}, I: 3, T: 1700000000e9}}}}
-	return []storeSpec{hist, inf, two, col}
+	// printf verbs and a trailing percent sign everywhere a record takes a string
+	pct := base
+	pct.Host, pct.GPrefix, pct.SPrefix, pct.CPrefix = q("h%s"), q("p%d."), q("%"), q("x%s")
+	pct.Metrics = []mSpec{{Name: q("cpu%"), Prog: q("p%d.mtail"), Kind: "gauge", Type: "int", Keys: []string{q("path")}, Source: q(""),
+		Ls: []lsSpec{{Vals: []string{q("/a%20b")}, I: 1, T: 1700000000e9}, {Vals: []string{q("100%")}, I: 2, T: 1700000001e9}}},
+		{Name: q("note"), Prog: q("p"), Kind: "text", Type: "string", Keys: []string{}, Source: q(""),
+			Ls: []lsSpec{{Vals: []string{}, S: q("100%"), T: 1700000002e9}}}}
+	// a scalar counter and a scalar histogram after a program reload
+	rel := base
+	rel.Metrics = []mSpec{{Name: q("foo"), Prog: q("p.mtail"), Kind: "counter", Type: "int", Keys: []string{}, Source: q("p.mtail:1:9-11"), Reload: true,
+		Ls: []lsSpec{{Vals: []string{}, I: 7, T: 1700000000e9}}},
+		{Name: q("lat"), Prog: q("p.mtail"), Kind: "histogram", Type: "buckets", Keys: []string{}, Source: q("p.mtail:2:11-13"), Reload: true,
+			Bounds: []string{hx(1), hx(2)}, Ls: []lsSpec{{Vals: []string{}, Obs: []string{hx(0.5), hx(3)}, T: 1700000003e9}}}}
+	return []storeSpec{hist, inf, two, col, pct, rel}
 }
 
 func main() {
